@@ -59,6 +59,8 @@ for _ax in ('sample', 'observation'):
         lambda b, t, o, a, ao, inplace, ax=_ax: t.update_ids(_rename(a.ids(ax), 'r'), axis=ax, strict=True, inplace=inplace))
     op(f'update_ids:{_ax}:partial', inplace=True)(
         lambda b, t, o, a, ao, inplace, ax=_ax: t.update_ids({a.ids(ax)[0]: 'q'}, axis=ax, strict=False, inplace=inplace))
+    op(f'update_ids:{_ax}:partial-collision', inplace=True)(
+        lambda b, t, o, a, ao, inplace, ax=_ax: t.update_ids({a.ids(ax)[0]: a.ids(ax)[-1]}, axis=ax, strict=False, inplace=inplace))
     op(f'add_metadata:{_ax}')(lambda b, t, o, a, ao, inplace, ax=_ax: (t.add_metadata(_md_for(a.ids(ax)), axis=ax), t)[1])
     op(f'del_metadata:{_ax}')(lambda b, t, o, a, ao, inplace, ax=_ax: (t.del_metadata(keys=['taxonomy', 'env'], axis=ax), t)[1])
     op(f'transform:{_ax}', inplace=True)(
